@@ -38,8 +38,11 @@ Theorem C05_rewrites_compose : forall rs p,
 Proof. exact rewrites_valid. Qed.
 
 (* The individual rewrites (R1 swap of independent declarations, R2 positional <-> named association, R3 selected
-   names, R4 wrap in a block, R5 added unused declaration).  `RUseItems` (item-wise use clause) is the one rewrite
-   whose `applicable` re-runs the reference on the result, so its preservation is immediate; for the others
+   names, R4 wrap in a block, R5 added unused declaration).  `RUseItems` (item-wise use clause) and `RAddLocal` (a local
+   declaration that OVERLOADS a designator of an enclosing region: an enumeration type re-using a literal, an integer
+   type with its implicit operators, a subprogram with an outer name and a profile of its own — whether the program
+   stays valid depends on how the designator is used, which the counting semantics decides) are the two rewrites
+   whose `applicable` re-runs the reference on the result, so their preservation is immediate; for the others
    `applicable` is a syntactic side condition (R1, R5) or the acceptance of the one rewritten phrase in the
    environment of the original phrase (R2, R3, R4). *)
 Theorem C05_swap_valid : forall p s,
